@@ -912,12 +912,46 @@ def stream_docs(run, rng, ndocs, thorough=False):
                     documents=ndocs, **stats)
 
 
+PROBES = [
+    # (case, signature of the listed open finding it exhibits on the unchanged tree | None = must hold)
+    ({'name': 'lazy-local'}, 'lazy-local-image-rereads-file'),
+    ({'name': 'xhtml-image', 'mime': 'text/html'}, 'xml-nonsvg-accepted-as-svg-image'),
+    ({'name': 'svg-style-import'}, 'svg-style-import-attributeerror'),
+    ({'name': 'svg-use-external'}, 'svg-use-external-raw-fetcher-call'),
+    ({'name': 'css-import-cycle'}, 'css-import-cycle-recursionerror'),
+    ({'name': 'gzip-truncated-body'}, 'fetch-body-read-error-escapes'),
+    ({'name': 'redirected-sheet-base'}, None),
+    ({'name': 'no-base-url'}, None),
+    ({'name': 'default-fetcher-not-used'}, None),
+] + [({'name': 'damaged-image-body', 'fmt': f, 'how': h, 'options': o}, None)
+     for f in ('png', 'jpeg') for h in ('cut', 'zeroed')
+     for o in ({}, {'optimize_images': True}, {'dpi': 10}, {'jpeg_quality': 30}, {'optimize_images': True, 'dpi': 10})]
+
+
+def stream_probes(run, rng, n=None):
+    outs = common.run_impl('impl_c20', 'probe', [c for c, _ in PROBES], limit=120, chunksize=1)
+    held = 0
+    for (c, sig), (st, o) in zip(PROBES, outs):
+        if st != 'ok':
+            run.fail('probe %s did not finish: %s %s' % (c['name'], st, o), {'stream': 'probe', 'case': c}, signature=sig)
+            continue
+        if o['bad']:
+            run.fail('%s: %s' % (c['name'], o['bad']), {'stream': 'probe', 'case': c, 'facts': o}, signature=sig)
+        else:
+            held += 1
+    run.count('probes', len(PROBES), [json.dumps(c, sort_keys=True) for c, _ in PROBES], samples=[PROBES[0][0]])
+    run.stream_info('probes', rule='one hand-made situation each: the six listed findings (file: image re-read at write time, XHTML as '
+                    'image, SVG @import, external <use>, import cycle, truncated gzip body), redirected sheet base, no base URL, '
+                    'a fetcher that serves nothing (no fallback to urllib/files), damaged image bodies x 5 option sets', held=held)
+
+
 def check(run):
     rng = random.Random(run.seed * 7919 + 20)
     thorough = run.tier == 'thorough'
     stream_urls(run, rng, 4000 if thorough else 1200)
     stream_consume(run, rng, 1500 if thorough else 700)
     stream_docs(run, rng, 60 if thorough else 36, thorough)
+    stream_probes(run, rng)
 
 
 def replay(data):
